@@ -133,3 +133,74 @@ func Verif_C13_Identifier() {
 	verifrt.Reach("done")
 	verifrt.Assert(rej == !valid, "identifier accepted exactly when non-empty, within the configured length and of valid characters")
 }
+
+// Longer marker/reference documents than the free histories reach: a list
+// holding up to two forward references (as a plain value and/or as a map key,
+// in either order), then the marker on an object of a chosen kind, then up to
+// one backward reference. Identifiers are symbolic, so references may or may
+// not name the marker.
+func Verif_C13_ForwardReferenceKinds() {
+	first := verifrt.Choice("first", 3)   // 0 none, 1 value reference, 2 key reference
+	second := verifrt.Choice("second", 3) // same, after the first
+	object := verifrt.Choice("object", 4) // marked object: int, null, float, list
+	back := verifrt.Choice("back", 3)     // backward reference: none, value, key
+	r := rules.NewRules(&verifh.Rec{}, configuration.New())
+	r.OnBeginDocument()
+	r.OnVersion(0)
+	m := &verifh.Model{}
+	implOK, refOK := true, true
+	try := func(ok bool, f func()) {
+		if !ok {
+			refOK = false
+		}
+		if implOK && verifh.Try(f) {
+			implOK = false
+		}
+	}
+	ref := func(kind int, tag string) {
+		switch kind {
+		case 1:
+			id := id2(tag)
+			try(m.Reference(id), func() { r.OnReferenceLocal([]byte{id}) })
+		case 2:
+			id := id2(tag)
+			try(m.Begin(verifh.FMapKey, 0), func() { r.OnMap() })
+			try(m.Reference(id), func() { r.OnReferenceLocal([]byte{id}) })
+			try(m.Value(true, false, 0), func() { r.OnNull() })
+			try(m.End(), func() { r.OnEndContainer() })
+		}
+	}
+	try(m.Begin(verifh.FList, 0), func() { r.OnList() })
+	ref(first, "ref1")
+	ref(second, "ref2")
+	mid := id2("marker")
+	try(m.Marker(mid), func() { r.OnMarker([]byte{mid}) })
+	switch object {
+	case 0:
+		v := uint64(verifrt.U8("int"))
+		try(m.Value(false, true, v), func() { r.OnPositiveInt(v) })
+	case 1:
+		try(m.Value(true, false, 0), func() { r.OnNull() })
+	case 2:
+		try(m.FloatValue(), func() { r.OnFloat(1.5) })
+	case 3:
+		try(m.Begin(verifh.FList, 0), func() { r.OnList() })
+		try(m.End(), func() { r.OnEndContainer() })
+	}
+	ref(back, "ref3")
+	try(m.End(), func() { r.OnEndContainer() })
+	if implOK && verifh.Try(func() { r.OnEndDocument() }) {
+		implOK = false
+	}
+	if refOK {
+		refOK = m.EndDocument() && m.MarkersConsistent()
+		verifrt.Known("KF-C13-float-ref-key", verifrt.And(m.EndDocument(), !m.MarkersConsistent(), m.MarkersConsistentIfFloatsKeyable()))
+	}
+	verifrt.Assume(!m.Excluded)
+	if implOK {
+		verifrt.Reach("accepted")
+	} else {
+		verifrt.Reach("rejected")
+	}
+	verifrt.Assert(implOK == refOK, "document accepted exactly when well-formed with consistent markers and references")
+}
